@@ -7,6 +7,9 @@ import lib
 
 THEOREM = 'C07_names / C07_width_select / C07_header_matches_rows / C07_headerless (Props/C07.v)'
 NAMES = ['id', 'name', 'x1', 'Val', '_u']
+USER_VARS = ['a1c', 'b2b', 'a3_total', 'zz9', 'NRx']
+INIT_PY = '\n'.join('%s = %d' % (v, i + 7) for i, v in enumerate(USER_VARS))
+INIT_JS = ' '.join('var %s = %d;' % (v, i + 7) for i, v in enumerate(USER_VARS))
 
 
 def gen_item(r, cx, lang_pair=True):
@@ -30,7 +33,8 @@ def gen_item(r, cx, lang_pair=True):
         txt = '%s[%s%s%s]' % (t, q, nm, q)
         return '(2 %d %s)' % (tn, lib.enc(nm)), txt, txt
     if x < 0.48:
-        v = r.choice(['NR', 'NF'])
+        # bare variables: NR / NF and identifiers defined by the user's init code, some of which only LOOK like aN / bN at the start
+        v = r.choice(['NR', 'NF'] + USER_VARS)
         return '(3 %s)' % lib.enc(v), v, v
     if x < 0.54 and not cx['agg']:
         return '(4)', '*', '*'
@@ -54,6 +58,12 @@ def gen_item(r, cx, lang_pair=True):
 
 
 def gen_case(r):
+    c = gen_case0(r)
+    c['init_py'], c['init_js'] = INIT_PY, INIT_JS
+    return c
+
+
+def gen_case0(r):
     na = r.randint(2, 3)
     with_hdr = r.random() < 0.6
     hdrA = r.sample(NAMES, na) if with_hdr else None
